@@ -95,7 +95,8 @@ Answer(a, arg, ret, gone, val) ==
                    shared |-> [o \in Objs |-> IF kind = "buf" /\ o <= made'
                                                  /\ HRefsOf(holds', copyh', hascopy', o) + extra'[o] + defer'[o] > 0
                                               THEN Bit(HRefsOf(holds', copyh', hascopy', o) + extra'[o] + defer'[o] > 1) ELSE -1],
-                   val    |-> val]]
+                   val    |-> val,
+                   bare   |-> IF kind = "bare" THEN cnt'[1] ELSE -1]]
 
 Tier1Same == UNCHANGED <<holds, copyh, hascopy, extra, defer, made>>
 Same      == Tier1Same /\ UNCHANGED <<cnt, alive>>
@@ -152,7 +153,7 @@ Move(h, g) ==
 (* reference<T>::detach(): the plain pointer now carries the reference *)
 Detach(h) ==
   LET o == holds[h] IN
-  /\ HasCxx(kind) /\ o # 0 /\ Frame
+  /\ HasCxx(kind) /\ o # 0 /\ extra[o] < MaxExtra /\ Frame
   /\ holds' = [holds EXCEPT ![h] = 0] /\ extra' = [extra EXCEPT ![o] = @ + 1]
   /\ UNCHANGED <<copyh, hascopy, defer, made, cnt, alive>>
   /\ Answer("detach", [h |-> h], "ok", <<>>, -1)
@@ -265,7 +266,7 @@ InitKind(k) ==
   /\ obs = [a |-> "init", arg |-> [kind |-> k, nh |-> NH, nobj |-> NObj, max |-> Max],
             exp |-> [ret |-> "ok", href |-> [h \in Handles |-> 0], copy |-> [h \in Handles |-> 0],
                      alive |-> [o \in Objs |-> 0], gone |-> <<>>, cnt |-> [o \in Objs |-> -1],
-                     shared |-> [o \in Objs |-> -1], val |-> -1]]
+                     shared |-> [o \in Objs |-> -1], val |-> -1, bare |-> IF k = "bare" THEN 1 ELSE -1]]
 Init == \E k \in Kinds : InitKind(k)
 
 PokeVals(o) == {Max - 1, Max} \cup (IF HRefs(o) + defer[o] >= 1 THEN {HRefs(o) + defer[o]} ELSE {})
